@@ -1,5 +1,6 @@
 """C17 — lookup paths derived from module names stay inside the symbol directories."""
 from .common import *
+import panics
 
 PID = 'C17'
 LOOKUPS = ['breakpad_symbols::breakpad_sym_lookup', 'breakpad_symbols::code_info_breakpad_sym_lookup',
@@ -92,22 +93,49 @@ def lookups(res, prog, c):
 
 
 def sanitiser(res, prog, c):
-    res.rule('C17.2', 0, floor=5, note='lookup_leafname = leafname() with "", "." and ".." rejected; leafname splits on both separator styles')
+    res.rule('C17.2', 0, floor=6, note='lookup_leafname = leafname() minus drive prefixes, with "", "." and ".." rejected; leafname splits on both separator styles')
     f = need_fn(res, c, 'breakpad_symbols::lookup_leafname', 'C17.2')
     if f is not None:
+        # the value under test: leafname(path) itself, or a local that only ever holds leafname(path) or a suffix of itself
+        def suffix_of(l, tree):
+            t = f.expand(tree)
+            while t[0] in ('ref', 'deref') and len(t) == 2:
+                t = t[1]
+            return (t[0] == 'call' and re.search(r'str::traits::index$|ops::Index<.*>>::index$', t[1]) and len(t) == 4 and t[2][0] == 'var' and t[2][2] == l
+                    and t[3][0] == 'adt' and t[3][1].endswith('RangeFrom::RangeFrom'))
+
+        def is_leaf(tree):
+            t = strip_views(f.expand(tree))
+            if is_call(t, 'breakpad_symbols::leafname'):
+                return True
+            if t[0] == 'var' and isinstance(t[2], int):
+                l = t[2]
+                ds = [d for d in f.defs.get(l, []) if d['kind'] != 'arg']
+                if not ds:
+                    return False
+                for d in ds:
+                    if d['kind'] == 'call' and strip_generics(d['term'].get('fn') or '') == 'breakpad_symbols::leafname':
+                        continue
+                    if d['kind'] == 'assign' and suffix_of(l, f.rvalue_tree(d['rv'])):
+                        continue
+                    return False
+                return True
+            return False
         ex = PathExplorer(f, keep=lambda cnd: cnd[0] == 'call' and cnd[1] == 'core::str::traits::eq', track=[])
         ex.tracked = set()
         ex.run()
         rejected = set()
         some_ok = False
+        some_blocks = []
         for (b, i, tree) in ret_assigns(f):
             for facts, env in ex.states.get(b, ()):
-                hits = [cnd[3][1] for cnd, v in facts if v is True and cnd[3][0] == 'str' and is_call(f.expand(cnd[2]), 'breakpad_symbols::leafname')]
+                hits = [cnd[3][1] for cnd, v in facts if v is True and cnd[3][0] == 'str' and is_leaf(cnd[2])]
                 tx = f.expand(tree)
                 if 'Option::None' in show(tx):
                     rejected.update(hits)
-                elif tx[0] == 'adt' and tx[1].endswith('Option::Some') and is_call(strip_views(tx[2]), 'breakpad_symbols::leafname') and not hits:
+                elif tx[0] == 'adt' and tx[1].endswith('Option::Some') and is_leaf(tx[2]) and not hits:
                     some_ok = True
+                    some_blocks.append(b)
                 else:
                     res.violation('C17.2', 'C17.2|shape', f, f.line, 'unexpected return %s under %s' % (show(tx)[:100], hits))
         for bad in ('', '.', '..'):
@@ -116,7 +144,74 @@ def sanitiser(res, prog, c):
                 res.violation('C17.2', 'C17.2|accepts|%r' % bad, f, f.line, 'lookup_leafname does not reject the leaf %r' % bad)
         res.rule('C17.2', 1)
         if not some_ok:
-            res.violation('C17.2', 'C17.2|some', f, f.line, 'lookup_leafname does not return Some(leafname(path)) for other names')
+            res.violation('C17.2', 'C17.2|some', f, f.line, 'lookup_leafname does not return Some(leaf) for other names')
+        # drive prefixes: a loop strips `<letter>:` while the leaf starts with one, and is left only when it does not
+        res.rule('C17.2', 1)
+        drive_ok = False
+        why = 'no loop that strips a drive prefix'
+        for h, body in f.loops().items():
+            strips = []
+            for l, ds in f.defs.items():
+                for d in ds:
+                    if d['kind'] == 'assign' and d['bb'] in body and suffix_of(l, f.rvalue_tree(d['rv'])):
+                        tr = f.expand(f.rvalue_tree(d['rv']))
+                        while tr[0] in ('ref', 'deref') and len(tr) == 2:
+                            tr = tr[1]
+                        strips.append((l, d['bb'], tr[3]))
+            if len(strips) != 1:
+                continue
+            l, sb, rng = strips[0]
+            if [show(x) for x in rng[2:]] != ['2']:
+                why = 'the loop strips %s, not two bytes' % show(rng)
+                continue
+
+            def bytes_of(t):
+                t = f.expand(t)
+                while t[0] in ('ref', 'deref', 'copy') and len(t) == 2:
+                    t = t[1]
+                return is_call(t, 'core::str::as_bytes') and t[2][0] == 'var' and t[2][2] == l
+            need = {'len': False, 'colon': False, 'alpha': False}
+            for r, gd, sx in panics.dominating_facts(f, sb):
+                if gd not in body:
+                    continue
+                if r[0] == 'le' and r[1] == ('int', 2) and r[2][0] in ('len', 'un') and bytes_of(r[2][-1]):
+                    need['len'] = True
+                if r[0] == 'switch' and r[2] == 58 and r[1][0] == 'index' and bytes_of(r[1][1]) and f.expand(r[1][2]) == ('int', 1):
+                    need['colon'] = True
+                if r[0] == 'eq' and r[2] == ('int', 58) and r[1][0] == 'index' and bytes_of(r[1][1]) and f.expand(r[1][2]) == ('int', 1):
+                    need['colon'] = True
+                if r[0] == 'true' and is_call(r[1], 'is_ascii_alphabetic'):
+                    a = f.expand(r[1][2])
+                    while a[0] in ('ref', 'deref', 'copy') and len(a) == 2:
+                        a = a[1]
+                    if a[0] == 'index' and bytes_of(a[1]) and f.expand(a[2]) == ('int', 0):
+                        need['alpha'] = True
+            if not any(need.values()):
+                why = 'the strip is not guarded by any of len >= 2, byte 1 == `:`, byte 0 alphabetic'
+                continue
+            # every way out of the loop is the failure of one of these tests (a subset is a stricter sanitiser: leaving
+            # the loop then still implies that the leaf has no `<letter>:` prefix)
+            exits_ok = True
+            for b in body:
+                t = f.blocks[b]['t']
+                outs = [x for x in f.succ[b] if x not in body]
+                if not outs:
+                    continue
+                if t['k'] != 'switch':
+                    exits_ok = False
+                    continue
+                cond = f.expand(f.operand_tree(t['x']))
+                cs = show(cond)
+                if not (('Ge (len' in cs and cs.endswith(' 2)')) or (cond[0] == 'index' and bytes_of(cond[1])) or is_call(cond, 'is_ascii_alphabetic')):
+                    exits_ok = False
+                    why = 'the loop is also left on %s' % cs[:80]
+            if not exits_ok:
+                continue
+            # the accepted leaf is returned only after that loop
+            if all(any(f.dominates(x, sbk) for x in body) for sbk in some_blocks) and some_blocks:
+                drive_ok = True
+        if not drive_ok:
+            res.violation('C17.2', 'C17.2|drive', f, f.line, 'lookup_leafname can return a leaf that starts with a drive prefix such as `C:` (%s)' % why)
     g = need_fn(res, c, 'breakpad_symbols::leafname', 'C17.2')
     if g is not None:
         res.rule('C17.2', 1)
@@ -136,34 +231,95 @@ def sanitiser(res, prog, c):
 
 
 def consumers(res, prog, c):
-    res.rule('C17.3', 0, floor=6, note='Path::join / Url::join onto cache, symbol dirs and server URLs take only lookup results')
+    res.rule('C17.3', 0, floor=12, note='Path::join onto cache / symbol dirs takes only lookup results; request URLs are built only by server_url, one percent-encoded path segment at a time')
+
+    def lookup_arg(g, arg):
+        ok = ('.cache_rel' in arg or '.server_rel' in arg or 'code_info_breakpad_sym_lookup' in arg or 'lookup_path' == arg)
+        if arg == 'lookup_path':
+            # individual_lookup_debug_info_by_code_info: lookup_path parameter comes from code_info_breakpad_sym_lookup at its only call site
+            ok = False
+            for g2 in c.fns:
+                for bb, tt in g2.calls():
+                    if g2.callee(tt) == 'breakpad_symbols::http::individual_lookup_debug_info_by_code_info':
+                        a = ' '.join(show(g2.expand(g2.operand_tree(x))) for x in tt['args'])
+                        ok = 'code_info_breakpad_sym_lookup' in a or 'lookup_path' in a
+        return ok
+    nurl = 0
     for f in c.fns:
         for b, t in f.calls():
             n = f.callee(t)
-            if n not in ('std::path::Path::join', 'reqwest::Url::join', 'std::path::PathBuf::push', 'url::Url::join'):
-                continue
-            res.rule('C17.3', 1)
-            arg = show(f.expand(f.operand_tree(t['args'][1])))
-            ok = ('.cache_rel' in arg or '.server_rel' in arg or 'code_info_breakpad_sym_lookup' in arg or 'lookup_path' == arg)
-            if arg == 'lookup_path':
-                # individual_lookup_debug_info_by_code_info: lookup_path parameter comes from code_info_breakpad_sym_lookup at its only call site
-                callers_ok = False
-                for g in c.fns:
-                    for bb, tt in g.calls():
-                        if g.callee(tt) == 'breakpad_symbols::http::individual_lookup_debug_info_by_code_info':
-                            a = ' '.join(show(g.expand(g.operand_tree(x))) for x in tt['args'])
-                            callers_ok = 'code_info_breakpad_sym_lookup' in a or 'lookup_path' in a
-                        if g.callee(tt) == 'breakpad_symbols::http::lookup_debug_info_by_code_info' and False:
-                            pass
-                ok = callers_ok
-            if not ok:
-                res.violation('C17.3', 'C17.3|%s' % f.qual, f, t.get('line'), '%s joins %s, which is not a FileLookup path' % (n, arg[:160]))
-            else:
-                res.sample({'rule': 'C17.3', 'fn': f.qual, 'joins': arg[-60:]}) if len(res.samples) < 30 else None
-    # C17.3b moz_lookup's pop().unwrap() — server_rel never empty (see panic table backing)
-    f = c.fn('breakpad_symbols::moz_lookup')
+            if n in ('std::path::Path::join', 'std::path::PathBuf::push'):
+                res.rule('C17.3', 1)
+                arg = show(f.expand(f.operand_tree(t['args'][1])))
+                if not lookup_arg(f, arg):
+                    res.violation('C17.3', 'C17.3|%s' % f.qual, f, t.get('line'), '%s joins %s, which is not a FileLookup path' % (n, arg[:160]))
+                else:
+                    res.sample({'rule': 'C17.3', 'fn': f.qual, 'joins': arg[-60:]}) if len(res.samples) < 30 else None
+            elif re.search(r'(^|::)Url::(join|parse|set_path|set_host|set_scheme|from_file_path|from_directory_path|parse_with_params)$', n) and not (n.endswith('Url::parse') and f.qual.startswith('breakpad_symbols::http::HttpSymbolSupplier::new')):
+                # a URL reference parsed from text: a dump-controlled name must never go through this
+                res.rule('C17.3', 1)
+                res.violation('C17.3', 'C17.3|url-syntax|%s' % f.qual, f, t.get('line'), '%s parses text as URL syntax outside the supplier constructor: a file name such as `http:host`, `%%2e%%2e` or `a?b` would be interpreted, not fetched' % n)
+            elif n == 'breakpad_symbols::http::server_url':
+                res.rule('C17.3', 1)
+                nurl += 1
+                arg = strip_views(f.expand(f.operand_tree(t['args'][1])))
+                if not lookup_arg(f, show(arg)):
+                    res.violation('C17.3', 'C17.3|server_url-arg|%s' % f.qual, f, t.get('line'), 'server_url is given %s, which is not a FileLookup path' % show(arg)[:160])
+            elif n.endswith('reqwest::Client::get'):
+                res.rule('C17.3', 1)
+                u = f.expand(f.operand_tree(t['args'][1]))
+
+                def from_server_url(tree, depth=0):
+                    txt = show(tree)
+                    if 'breakpad_symbols::http::server_url' in txt:
+                        return True
+                    tree = strip_views(tree)
+                    if tree[0] == 'var' and isinstance(tree[2], int) and depth < 3:
+                        ds = [d for d in f.defs.get(tree[2], []) if d['kind'] in ('assign', 'call')]
+                        return bool(ds) and all(from_server_url(f.expand(f.rvalue_tree(d['rv']) if d['kind'] == 'assign' else f.call_tree(d['term'])), depth + 1) for d in ds)
+                    return False
+                if not from_server_url(u):
+                    res.violation('C17.3', 'C17.3|get|%s' % f.qual, f, t.get('line'), 'the requested URL %s was not built by server_url' % show(u)[:160])
+    if nurl < 3:
+        res.error('C17.3', 'fewer than 3 server_url call sites (%d)' % nurl)
+    # the builder itself
+    f = need_fn(res, c, 'breakpad_symbols::http::server_url', 'C17.3')
     if f is not None:
+        calls = {f.callee(t): (b, t) for b, t in f.calls()}
         res.rule('C17.3', 1)
+        ext = calls.get('url::path_segments::PathSegmentsMut::extend')
+        ok = False
+        if ext:
+            a = f.expand(f.operand_tree(ext[1]['args'][1]))
+            ok = is_call(a, 'core::str::split') and a[2][0] == 'var' and a[2][2] == 2 and a[3] in (('int', 47), ('str', '/'))
+            recv = show(f.expand(f.operand_tree(ext[1]['args'][0])))
+            ok = ok and 'path_segments_mut' in (recv + ' '.join(show(f.expand(f.call_tree(t))) for b, t in f.calls()))
+        if not ok:
+            res.violation('C17.3', 'C17.3|segments', f, f.line, 'server_url does not append server_rel.split(\'/\') through path_segments_mut().extend(..) (each segment percent-encoded)')
+        res.rule('C17.3', 1)
+        bad = [n for n in calls if re.search(r'Url::(join|parse|set_path)$', n)]
+        if bad:
+            res.violation('C17.3', 'C17.3|builder-parses', f, f.line, 'server_url itself parses text as URL syntax: %s' % bad)
+        # tabs / newlines (dropped by the URL parser wherever they stand) => None, before anything is built
+        res.rule('C17.3', 1)
+        ok = False
+        for b, t in f.calls():
+            if f.callee(t) == 'core::str::contains':
+                a = f.expand(f.call_tree(t))
+                chars = set(x[1] for x in a[3][1:] if isinstance(x, tuple) and x[0] == 'int') if a[3][0] == 'array' else set()
+                if a[2][0] == 'var' and a[2][2] == 2 and {9, 10, 13} <= chars:
+                    # the true edge returns None without building
+                    for (rb, ri, tree) in ret_assigns(f):
+                        if 'Option::None' in show(f.expand(tree)):
+                            facts = [r for r, gd, sx in panics.dominating_facts(f, rb)]
+                            if any(r[0] == 'true' and is_call(r[1], 'core::str::contains') for r in facts):
+                                ok = True
+        if not ok:
+            res.violation('C17.3', 'C17.3|control-chars', f, f.line, 'server_url does not refuse names containing tab / newline / carriage return (the URL parser drops them, so `.<tab>.` would become `..`)')
+        res.rule('C17.3', 1)
+        somes = [tree for (rb, ri, tree) in ret_assigns(f) if 'Option::Some' in show(f.expand(tree))]
+        if len(somes) != 1:
+            res.violation('C17.3', 'C17.3|returns', f, f.line, 'server_url has %d Some(..) returns, expected exactly the built URL' % len(somes))
 
 
 def run(tier, t0):
@@ -176,7 +332,6 @@ def run(tier, t0):
     res.assumptions += [
         'DebugId::breakpad() and CodeId text are hexadecimal by construction (debugid crate, trusted)',
         'a leaf produced by leafname() contains neither `/` nor `\\` (it is the last piece of an rsplit on both)',
-        'drive prefixes such as `C:` inside a leaf (no separator) are not rejected: on Windows `root.join("C:x")` would leave the root; stated, not decided',
     ]
     return harness.finish(res, tier, t0, distinct=3, explanation=(
         'Sanitiser coverage and adequacy as structural rules: every component that the four lookup functions join with "/" is lookup_leafname(..)? of the module\'s code/debug file, that leaf with a replaced extension, '
